@@ -157,6 +157,7 @@ class Evaluator:
         self.max_steps = max_steps
         self.calls = 0
         self._const_stack = set()
+        self._const_cache = {}
         self._class_objects = {}
         self.class_attrs = {}
 
@@ -470,6 +471,8 @@ class Evaluator:
                         # not a literal (a table of classes / functions, a comprehension over repository functions): evaluate its
                         # defining expression in the scope of its module
                         key = (m2.name, r[1])
+                        if key in self._const_cache:
+                            return self._const_cache[key]   # one object per module-level name, as in Python
                         if key in self._const_stack:
                             raise Undecided("constant %s defined through itself" % e.id)
                         self._const_stack.add(key)
@@ -477,6 +480,7 @@ class Evaluator:
                             v = self._expr(m2.constants[r[1]], {}, m2, None)
                         finally:
                             self._const_stack.discard(key)
+                        self._const_cache[key] = v
                     return v
                 if r[1] in m2.functions:
                     return ("func", m2.name, r[1])
